@@ -149,12 +149,12 @@ func checkC20(c *Ctx) {
 				}
 			}
 			if fwd == nil {
-				c.Bad("R2", t.Obj().Name()+":forwards", where, "adapter does not forward the table to its actor")
+				c.Bad("R2", canonTypeName(t.Obj())+":forwards", where, "adapter does not forward the table to its actor")
 				continue
 			}
 			arg := fwd.Common().Args[0]
 			local := rawLocal(arg)
-			c.Check(local && !symIsParam(p.Sym(arg), in), "R2", t.Obj().Name()+":passes-fresh-copy", p.InstrPos(fwd), "actor receives the address of a local copy", "the actor receives "+p.Sym(arg).String()+" — the engine's own table (or something reachable from it), not a private copy")
+			c.Check(local && !symIsParam(p.Sym(arg), in), "R2", canonTypeName(t.Obj())+":passes-fresh-copy", p.InstrPos(fwd), "actor receives the address of a local copy", "the actor receives "+p.Sym(arg).String()+" — the engine's own table (or something reachable from it), not a private copy")
 			// that local is the target of json.Unmarshal of the incoming table's JSON
 			okFill := false
 			d := "the copy handed to the actor is not filled by json.Unmarshal from the incoming table's own JSON"
@@ -177,11 +177,11 @@ func checkC20(c *Ctx) {
 					d = "the copy is decoded from " + src.String()
 				}
 			}
-			c.Check(okFill, "R2", t.Obj().Name()+":copy-from-incoming-json", where, "json.Unmarshal(GetJSON(incoming), &copy) before forwarding", d)
+			c.Check(okFill, "R2", canonTypeName(t.Obj())+":copy-from-incoming-json", where, "json.Unmarshal(GetJSON(incoming), &copy) before forwarding", d)
 			// what the adapter keeps
 			for _, ss := range p.Stores([]*ssa.Function{f}) {
-				if ss.Field == "table" && ss.Owner == t.Obj().Name() {
-					c.Check(rootAlloc(ss.ValV) != nil && rootAlloc(ss.ValV) == rootAlloc(arg), "R2", t.Obj().Name()+":keeps-the-copy", p.InstrPos(ss.Instr), "adapter keeps the same private copy", "the adapter keeps "+ss.Val.String()+" instead of the private copy")
+				if ss.Field == "table" && ss.Owner == canonTypeName(t.Obj()) {
+					c.Check(rootAlloc(ss.ValV) != nil && rootAlloc(ss.ValV) == rootAlloc(arg), "R2", canonTypeName(t.Obj())+":keeps-the-copy", p.InstrPos(ss.Instr), "adapter keeps the same private copy", "the adapter keeps "+ss.Val.String()+" instead of the private copy")
 				}
 			}
 		}
